@@ -1,4 +1,5 @@
 import PewProofs.Colocal
+import PewProofs.ColocalNd
 
 /-! # C14 — property theorems (statements only depend on `PewModel.Colocal`, plus `Real.sqrt`
 for the two corollaries about r itself) -/
@@ -607,5 +608,216 @@ example : pearsonProbability (⟨2, 4, fun i j => ((i * 4 + j : Nat) : Rat)⟩ :
       (⟨2, 4, fun i j => (((i * 4 + j) * (i * 4 + j) % 3 : Nat) : Rat)⟩ : Img Rat) (fun _ _ => true) 2 false
       [[1, 0], [0, 1], [1, 0]]
     = some (2 / 3) := by decide +kernel
+
+/-! ## block shuffling in any dimension (`shuffle_blocks` is written for n-D arrays)
+
+The theorems of the 2-D section for `shuffleBlocksNd` (`PewModel/ColocalNd.lean`): shapes, blocks and coordinates
+are lists.  Hypotheses: `block.length = x.shape.length` (the code asserts it) and positive block sizes. -/
+
+/-- **n-D: block shuffling is a permutation of whole blocks** (cf. `shuffle_is_bijection`) -/
+theorem shuffle_is_bijection_nd {α : Type} (x : NdImg α) (mask : List Nat → Bool) (block : List Nat)
+    (padMode part : Bool) (nidx : List Nat) (hlen : block.length = x.shape.length) (hpos : ∀ v ∈ block, 0 < v)
+    (hp : nidx.Perm (shuffleIdxNd x mask block padMode part)) :
+    let p := prepareNd x mask block padMode
+    let nb := nBlocksL p.N block
+    let idx := shuffleIdxNd x mask block padMode part
+    let φ := phiNd block nb idx nidx
+    (∀ c, (shuffleBlocksNd x mask block padMode part nidx).get c = p.X (φ c)) ∧
+    ((coords p.N).map φ).Perm (coords p.N) ∧
+    (∀ c c', c.length = block.length → c'.length = block.length → φ c = φ c' → c = c') ∧
+    (∀ c, c.length = block.length → ltAll (divL c block) nb = true →
+      modL (φ c) block = modL c block ∧
+      divL (φ c) block = unravel nb (src idx nidx (ravel nb (divL c block)))) ∧
+    (∀ c, c.length = block.length → inSelectedNd block nb idx c = false → φ c = c) := by
+  intro p nb idx φ
+  have G := geoNd_of_call x mask block padMode part nidx hlen hpos hp
+  refine ⟨fun c => rfl, ?_, ?_, ?_, ?_⟩
+  · apply map_perm_of_inj _ _ (coords_nodup _)
+    · intro c hc
+      rw [mem_coords] at hc ⊢
+      exact phiNd_in_box G c hc
+    · intro c hc c' hc' h
+      rw [mem_coords] at hc hc'
+      exact phiNd_inj G c c' ((ltAll_length hc).trans G.hlenN) ((ltAll_length hc').trans G.hlenN) h
+  · intro c c' hc hc' h
+    exact phiNd_inj G c c' hc hc' h
+  · intro c hc hv
+    exact ⟨phiNd_mod G c hc hv, phiNd_div G c hc hv⟩
+  · intro c hc h
+    exact phiNd_fix c hc ((inSelectedNd_false_iff _ _ _ _).mp h)
+
+/-- a 2×2×4 array, blocks 1×2×2, full mask: four blocks, reversed -/
+example : ([3, 2, 1, 0] : List Nat).Perm
+    (shuffleIdxNd (⟨[2, 2, 4], fun c => (ravel [2, 2, 4] c : Rat)⟩ : NdImg Rat) (fun _ => true) [1, 2, 2] false false) := by
+  decide
+
+example : (coords [2, 2, 4]).map (shuffleBlocksNd (⟨[2, 2, 4], fun c => (ravel [2, 2, 4] c : Rat)⟩ : NdImg Rat)
+      (fun _ => true) [1, 2, 2] false false [3, 2, 1, 0]).get
+    = [10, 11, 8, 9, 14, 15, 12, 13, 2, 3, 0, 1, 6, 7, 4, 5] := by decide +kernel
+
+/-- n-D: pixels outside the shuffled blocks never move (any `nidx`, both modes) -/
+theorem outside_never_move_nd {α : Type} (x : NdImg α) (mask : List Nat → Bool) (block : List Nat)
+    (padMode part : Bool) (nidx : List Nat) (c : List Nat) (hlen : block.length = x.shape.length)
+    (hc : ltAll c x.shape = true)
+    (hout : inSelectedNd block (nBlocksL (prepareNd x mask block padMode).N block)
+      (shuffleIdxNd x mask block padMode part) c = false) :
+    (shuffleBlocksNd x mask block padMode part nidx).get c = x.get c := by
+  have hcl : c.length = block.length := (ltAll_length hc).trans hlen.symm
+  have hfix := phiNd_fix (nidx := nidx) c hcl ((inSelectedNd_false_iff _ _ _ _).mp hout)
+  show (prepareNd x mask block padMode).X (phiNd block _ (shuffleIdxNd x mask block padMode part) nidx c) = _
+  rw [hfix]
+  exact prepareNd_X x mask block padMode c hc
+
+/-- n-D: every output block is one of the selected input blocks: block `f` of the result is block `src f` of the
+working array, pixel for pixel (offsets `o` in the box `block`), and `src f` is again a selected block -/
+theorem blocks_from_input_nd {α : Type} (x : NdImg α) (mask : List Nat → Bool) (block : List Nat)
+    (padMode part : Bool) (nidx : List Nat) (hlen : block.length = x.shape.length)
+    (hp : nidx.Perm (shuffleIdxNd x mask block padMode part))
+    (f : Nat) (hf : f ∈ shuffleIdxNd x mask block padMode part) :
+    let p := prepareNd x mask block padMode
+    let nb := nBlocksL p.N block
+    let g := src (shuffleIdxNd x mask block padMode part) nidx f
+    g ∈ shuffleIdxNd x mask block padMode part ∧
+    ∀ o, ltAll o block = true →
+      (shuffleBlocksNd x mask block padMode part nidx).get (recomb (unravel nb f) block o)
+        = p.X (recomb (unravel nb g) block o) := by
+  intro p nb g
+  refine ⟨src_mem _ _ hp f hf, ?_⟩
+  intro o ho
+  have hflt : f < prodL nb := selectedNd_lt _ _ _ _ f hf
+  have hnbl : nb.length = block.length := by
+    show (divL (prepareNd x mask block padMode).N block).length = _
+    rw [length_divL, prepareNd_N_length x mask block padMode hlen]
+    simp
+  have hul : (unravel nb f).length = block.length := by rw [unravel_length, hnbl]
+  have hd : divL (recomb (unravel nb f) block o) block = unravel nb f := divL_recomb _ _ _ hul ho
+  have hm : modL (recomb (unravel nb f) block o) block = o := modL_recomb _ _ _ hul ho
+  have hv : ltAll (divL (recomb (unravel nb f) block o) block) nb = true := by
+    rw [hd]; exact unravel_lt _ _ hflt
+  show p.X (phiNd block nb (shuffleIdxNd x mask block padMode part) nidx (recomb (unravel nb f) block o)) = _
+  rw [phiNd_valid _ hv, hd, hm, ravel_unravel _ _ hflt]
+
+/-- n-D: pixel values are conserved (as a multiset over the whole array) whenever the shape is a multiple of the
+block on every axis, and always in in-place mode -/
+theorem values_conserved_nd {α : Type} (x : NdImg α) (mask : List Nat → Bool) (block : List Nat)
+    (padMode part : Bool) (nidx : List Nat) (hlen : block.length = x.shape.length) (hpos : ∀ v ∈ block, 0 < v)
+    (hp : nidx.Perm (shuffleIdxNd x mask block padMode part))
+    (happ : conservedAppliesNd x block padMode = true) :
+    ((coords x.shape).map (shuffleBlocksNd x mask block padMode part nidx).get).Perm
+      ((coords x.shape).map x.get) := by
+  have G := geoNd_of_call x mask block padMode part nidx hlen hpos hp
+  have hN : (prepareNd x mask block padMode).N = x.shape := by
+    cases padMode with
+    | false => rfl
+    | true =>
+      simp only [conservedAppliesNd, Bool.not_true, Bool.false_or] at happ
+      exact padExt_list_of_multiple _ _ hlen happ
+  have hw := conserved_working_nd (prepareNd x mask block padMode).X G
+  have hco : coords (prepareNd x mask block padMode).N = coords x.shape := by rw [hN]
+  rw [hco] at hw
+  have e2 : (coords x.shape).map (prepareNd x mask block padMode).X = (coords x.shape).map x.get := by
+    apply List.map_congr_left
+    intro c hc
+    rw [mem_coords] at hc
+    exact prepareNd_X x mask block padMode c hc
+  rw [← e2]
+  exact hw
+
+example : conservedAppliesNd (⟨[4, 6, 2], fun _ => (0 : Rat)⟩ : NdImg Rat) [2, 3, 1] true = true ∧
+    conservedAppliesNd (⟨[5, 7, 3], fun _ => (0 : Rat)⟩ : NdImg Rat) [2, 3, 2] false = true ∧
+    conservedAppliesNd (⟨[5, 6, 2], fun _ => (0 : Rat)⟩ : NdImg Rat) [2, 3, 1] true = false := by decide
+
+/-- **n-D: the model's result satisfies the relation the check evaluates on the implementation's result**
+(`specOutsideNd`, `specBlocksNd`, `specConservedNd`), for every permutation `nidx`, arrays of any dimension. -/
+theorem model_satisfies_spec_nd (x : NdImg Rat) (mask : List Nat → Bool) (block : List Nat)
+    (padMode part : Bool) (nidx : List Nat) (hlen : block.length = x.shape.length) (hpos : ∀ v ∈ block, 0 < v)
+    (hp : nidx.Perm (shuffleIdxNd x mask block padMode part)) :
+    specOutsideNd x (shuffleBlocksNd x mask block padMode part nidx) mask block padMode part = true ∧
+    specBlocksNd x (shuffleBlocksNd x mask block padMode part nidx) mask block padMode part = true ∧
+    (conservedAppliesNd x block padMode = true →
+      specConservedNd x (shuffleBlocksNd x mask block padMode part nidx) = true) := by
+  refine ⟨?_, ?_, ?_⟩
+  · unfold specOutsideNd
+    simp only [List.all_eq_true, Bool.or_eq_true, decide_eq_true_eq]
+    intro c hc
+    rw [mem_coords] at hc
+    by_cases hs : inSelectedNd block (nBlocksL (prepareNd x mask block padMode).N block)
+        (selectedNd (prepareNd x mask block padMode).M block (nBlocksL (prepareNd x mask block padMode).N block) part)
+        c = true
+    · exact Or.inl hs
+    · right
+      exact outside_never_move_nd x mask block padMode part nidx c hlen hc (by simpa [shuffleIdxNd] using hs)
+  · unfold specBlocksNd
+    simp only [List.all_eq_true, List.any_eq_true, Bool.or_eq_true, decide_eq_true_eq]
+    intro f hf
+    obtain ⟨hg, hblk⟩ := blocks_from_input_nd x mask block padMode part nidx hlen hp f hf
+    refine ⟨_, hg, ?_⟩
+    intro o ho
+    rw [mem_coords] at ho
+    right
+    exact hblk o ho
+  · intro happ
+    unfold specConservedNd
+    rw [beq_iff_eq]
+    exact sortR_eq_of_perm _ _ (values_conserved_nd x mask block padMode part nidx hlen hpos hp happ)
+
+/-- n-D, memory layout (copy case): when the block view does not alias the returned array the call returns the
+input pixel for pixel -/
+theorem layout_copy_returns_input_nd {α : Type} (x : NdImg α) (mask : List Nat → Bool) (block : List Nat)
+    (padMode part : Bool) (nidx : List Nat) (c : List Nat) (hlen : block.length = x.shape.length)
+    (hc : ltAll c x.shape = true) :
+    (shuffleBlocksLayoutNd false x mask block padMode part nidx).get c = x.get c := by
+  have hcl : c.length = block.length := (ltAll_length hc).trans hlen.symm
+  show (prepareNd x mask block padMode).X (phiNd block _ _ _ c) = _
+  simp only [Bool.false_eq_true, if_false]
+  rw [phiNd_self _ _ _ _ hcl]
+  exact prepareNd_X x mask block padMode c hc
+
+/-- n-D: whichever the layout, the result satisfies the relation the check evaluates -/
+theorem layout_satisfies_spec_nd (aliases : Bool) (x : NdImg Rat) (mask : List Nat → Bool) (block : List Nat)
+    (padMode part : Bool) (nidx : List Nat) (hlen : block.length = x.shape.length) (hpos : ∀ v ∈ block, 0 < v)
+    (hp : nidx.Perm (shuffleIdxNd x mask block padMode part)) :
+    specOutsideNd x (shuffleBlocksLayoutNd aliases x mask block padMode part nidx) mask block padMode part = true ∧
+    specBlocksNd x (shuffleBlocksLayoutNd aliases x mask block padMode part nidx) mask block padMode part = true ∧
+    (conservedAppliesNd x block padMode = true →
+      specConservedNd x (shuffleBlocksLayoutNd aliases x mask block padMode part nidx) = true) := by
+  cases aliases with
+  | true => exact model_satisfies_spec_nd x mask block padMode part nidx hlen hpos hp
+  | false =>
+    exact model_satisfies_spec_nd x mask block padMode part (shuffleIdxNd x mask block padMode part) hlen hpos
+      (List.Perm.refl _)
+
+/-- **n-D: "the mask passed must not be written to"** - `shuffle_call_frame` for arrays of any dimension: the
+per-axis trim writes `np.swapaxes(mask, 0, axis)[slice(t, None)] = False` go to the copy -/
+theorem shuffle_call_frame_nd {α : Type} (aliases : Bool) (x : NdImg α) (mask : List Nat → Bool) (block : List Nat)
+    (padMode part : Bool) (nidx : List Nat) :
+    (shuffleCallNd true aliases x mask block padMode part nidx).maskAfter = mask ∧
+    (shuffleCallNd true aliases x mask block padMode part nidx).ret
+      = shuffleBlocksLayoutNd aliases x mask block padMode part nidx ∧
+    (shuffleCallNd true aliases x mask block padMode part nidx).xAfter
+      = (if padMode then x else (shuffleCallNd true aliases x mask block padMode part nidx).ret) ∧
+    (shuffleCallNd false aliases x mask block false part nidx).maskAfter
+      = (fun c => mask c && inTrim x.shape block c) := by
+  refine ⟨shuffleCallNd_maskAfter_copies _ _ _ _ _ _ _, shuffleCallNd_ret _ _ _ _ _ _ _ _, ?_,
+    shuffleCallNd_maskAfter_nocopy _ _ _ _ _ _⟩
+  rw [shuffleCallNd_xAfter, shuffleCallNd_ret]
+  cases padMode <;> rfl
+
+/-- a 3×3×3 mask of ones, blocks 2×2×2: 8 ones are left without the copy, 27 with it -/
+example :
+    ((coords [3, 3, 3]).filter (shuffleCallNd false true (⟨[3, 3, 3], fun c => (ravel [3, 3, 3] c : Rat)⟩ : NdImg Rat)
+        (fun _ => true) [2, 2, 2] false false [0]).maskAfter).length = 8 ∧
+    ((coords [3, 3, 3]).filter (shuffleCallNd true true (⟨[3, 3, 3], fun c => (ravel [3, 3, 3] c : Rat)⟩ : NdImg Rat)
+        (fun _ => true) [2, 2, 2] false false [0]).maskAfter).length = 27 := by decide +kernel
+
+/-- **The 2-D model is the n-D model on shapes `[n0, n1]`**: the list handed to the permutation and every pixel of
+the result coincide (so the 2-D theorems above and the n-D theorems speak about the same function, and the check
+runs both on every 1-D/2-D case). -/
+theorem nd_coincides_2d {α : Type} (aliases : Bool) (x : Img α) (mask : Nat → Nat → Bool) (b0 b1 : Nat)
+    (padMode part : Bool) (nidx : List Nat) :
+    shuffleIdxNd x.toNd (maskToNd mask) [b0, b1] padMode part = shuffleIdx x mask b0 b1 padMode part ∧
+    ∀ i j, (shuffleBlocksLayoutNd aliases x.toNd (maskToNd mask) [b0, b1] padMode part nidx).get [i, j]
+      = (shuffleBlocksLayout aliases x mask b0 b1 padMode part nidx).get i j :=
+  ⟨shuffleIdxNd_two x mask b0 b1 padMode part, shuffleBlocksLayoutNd_two aliases x mask b0 b1 padMode part nidx⟩
 
 end Pew.Colocal
